@@ -170,6 +170,11 @@ class SCCReader(BaseReader):
     """
 
     def __init__(self, *args, **kw):
+        self._reset_decoder_state()
+
+    def _reset_decoder_state(self):
+        """(Re)creates all the decoder state, so that what a reader instance
+        returns does not depend on what it has read before."""
         self.caption_stash = CaptionCreator()
         self.time_translator = _SccTimeTranslator()
 
@@ -233,6 +238,7 @@ class SCCReader(BaseReader):
         if not isinstance(content, str):
             raise InvalidInputError("The content is not a unicode string.")
 
+        self._reset_decoder_state()
         self.simulate_roll_up = simulate_roll_up
         self.time_translator.offset = offset * 1000000
         # split lines
